@@ -24,6 +24,7 @@ import (
 	"net"
 	"net/netip"
 	"strconv"
+	"strings"
 )
 
 type socketOpts struct {
@@ -68,6 +69,10 @@ func tryRemovePort(s string) string {
 
 // trySplitHostPort splits host and port.
 // If s has no port, it returns s,0,nil
+// A host that contains a colon (or a bracket) must be an ip address. This rejects
+// a bare ipv6 address that is followed by a port ("2001:db8:0:0:0:0:0:1:853",
+// "fd00::1:10853"): net.SplitHostPort cannot split it, and it is neither an
+// address nor a domain name. It has to be written as "[addr]:port".
 func trySplitHostPort(s string) (string, uint16, error) {
 	var port uint16
 	host, portS, err := net.SplitHostPort(s)
@@ -77,9 +82,16 @@ func trySplitHostPort(s string) (string, uint16, error) {
 			return "", 0, fmt.Errorf("invalid port, %w", err)
 		}
 		port = uint16(n)
-		return host, port, nil
+	} else {
+		// No port. A lone ipv6 address may still be in brackets.
+		host = tryTrimIpv6Brackets(s)
 	}
-	return s, 0, nil
+	if strings.ContainsAny(host, ":[]") {
+		if _, err := netip.ParseAddr(host); err != nil {
+			return "", 0, fmt.Errorf("invalid host %q, an ipv6 address with a port must be written as [addr]:port", host)
+		}
+	}
+	return host, port, nil
 }
 
 func parseBootstrapAp(s string) (netip.AddrPort, error) {
